@@ -16,6 +16,7 @@ V: Trace_Memory requires: no tracked region changed, deterministic results
 import os
 
 import vlib
+from checks import ages_common as ag
 from checks import c04
 
 KINDS = ["t1state", "t2state", "t3state", "t5state", "t1issuer", "t2issuer", "t5issuer", "t3issuer", "attester", "batch", "ecdsa", "ed25519", "codec"]
@@ -49,7 +50,9 @@ def run(ctx):
     kinds = {}
     for c in cases:
         kinds[c["kind"]] = kinds.get(c["kind"], 0) + 1
+    an, acases = ag.run(ctx, ['rlissuer', 'ecdsa'])   # Ages.tla: every schedule of phases on one long-lived object, each phase scaled to n operations
     return ctx.finish({
+        **ag.coverage(an, acases),
         "traces_validated_against_impl": len(cases),
         "events_validated": n,
         "evaluations": sum(len(c["calls"]) for c in cases) * 2,
@@ -68,6 +71,8 @@ def run(ctx):
 
 
 def replay(ctx, path):
+    if vlib.json.load(open(path)).get("family") == "ages":
+        return ag.replay(ctx, path)
     obj = vlib.json.load(open(path))
     bpath = os.path.join(ctx.scratch, "memory-behaviours.json")
     vlib.json.dump([], open(bpath, "w"))
